@@ -89,3 +89,14 @@ Definition str_rev (s : string) : string := str_rev_aux s EmptyString.
 Definition str_endswith (suf s : string) : bool := str_startswith (str_rev suf) (str_rev s).
 (* s[:-n] for n > 0 (Python clamps: a string shorter than n gives "") *)
 Definition str_drop_end (n : nat) (s : string) : string := str_rev (str_drop n (str_rev s)).
+
+(* str.lower() and str.strip() on ASCII strings *)
+Definition ascii_lower (c : ascii) : ascii :=
+  let n := nat_of_ascii c in if (65 <=? n)%nat && (n <=? 90)%nat then ascii_of_nat (n + 32) else c.
+Fixpoint str_lower (s : string) : string :=
+  match s with EmptyString => EmptyString | String c r => String (ascii_lower c) (str_lower r) end.
+Definition is_space (c : ascii) : bool :=
+  let n := nat_of_ascii c in (n =? 32)%nat || ((9 <=? n)%nat && (n <=? 13)%nat) || ((28 <=? n)%nat && (n <=? 31)%nat).
+Fixpoint str_lstrip (s : string) : string :=
+  match s with String c r => if is_space c then str_lstrip r else s | EmptyString => EmptyString end.
+Definition str_strip (s : string) : string := str_rev (str_lstrip (str_rev (str_lstrip s))).
